@@ -1104,7 +1104,12 @@ theorem fin_doActionCore (M : Nat) (w : World) (mid : Nat) (batch : Option Txn) 
             rcases txnReplace_txn w { market := mid, client := _ } (tg.resolve w) price v force with h | h
             · exact Or.inl h
             · exact Or.inr (Or.inr (Or.inr (Or.inr ⟨v, h⟩)))) ho hBI
-    | batchBegin c => exact ⟨⟨hBI, hB'⟩, Step.refl M w⟩
+    | batchBegin c =>
+      cases batch with
+      | some t =>
+        obtain ⟨b1, s1⟩ := (fs_txnExit M w t (hB t rfl)).2 hBI
+        exact ⟨⟨b1, hB'⟩, s1⟩
+      | none => exact ⟨⟨hBI, hB'⟩, Step.refl M w⟩
     | batchExecute =>
       cases batch with
       | some t =>
